@@ -21,6 +21,10 @@ type PropSpec struct {
 	Functions []FuncSpec `json:"functions"`
 	Bounded   []Bounded  `json:"bounded"`
 	Groups    []string   `json:"groups"`
+	// Generate: commands run before loading (cwd = verif dir; env VERIF_REPO, GOVC_GEN = scratch dir)
+	// whose output files, with Overlay, are loaded as virtual files of the repository
+	Generate []string          `json:"generate"`
+	Overlay  map[string]string `json:"overlay"` // path below the repository -> file below GOVC_GEN, or verif-relative path if it starts with "spec/"
 	Notes     []string   `json:"notes"`
 	Assumptions []string `json:"assumptions"`
 }
@@ -131,6 +135,38 @@ func CmdCheck(args []string) int {
 	pk := ps.Packages
 	if len(pk) == 0 {
 		pk = DefaultPkgs
+	}
+	if len(ps.Generate) > 0 || len(ps.Overlay) > 0 {
+		genDir := filepath.Join(out, "work", *prop, "gen")
+		os.RemoveAll(genDir)
+		os.MkdirAll(genDir, 0o755)
+		for _, g := range ps.Generate {
+			cmd := exec.Command("bash", "-c", g)
+			cmd.Dir = *verif
+			cmd.Env = append(os.Environ(), "GOFLAGS=-mod=mod", "GOPROXY=off", "GOSUMDB=off", "GOTOOLCHAIN=local", "VERIF_REPO="+*repo, "GOVC_GEN="+genDir)
+			if b, err := cmd.CombinedOutput(); err != nil {
+				// the repository's generator failed on the fixed schema: a violation of the property, not a tool error
+				path := filepath.Join(out, "replay", *prop, "generate_failed.txt")
+				os.MkdirAll(filepath.Dir(path), 0o755)
+				os.WriteFile(path, append([]byte("property: "+*prop+"\nobligation: generate\ncommand: "+g+"\n\n"), b...), 0o644)
+				fmt.Printf("%s", b)
+				fmt.Printf("VIOLATION property=%s replay=%s obligation=generate no-failing-input-found\n", *prop, path)
+				return 1
+			}
+		}
+		LoadOverlay = map[string][]byte{}
+		for dst, src := range ps.Overlay {
+			sp := filepath.Join(genDir, src)
+			if strings.HasPrefix(src, "spec/") {
+				sp = filepath.Join(*verif, src)
+			}
+			b, err := os.ReadFile(sp)
+			if err != nil {
+				fmt.Println("ERROR: overlay source:", err)
+				return 2
+			}
+			LoadOverlay[filepath.Join(*repo, dst)] = b
+		}
 	}
 	w, err := Load(*repo, pk...)
 	if err != nil {
